@@ -149,23 +149,30 @@ Lemma poling_value p sg ap s v :
   exists m, s_pp s' = On m (compute_sign (s_signal s) (s_pump s) (s_crystal_setup s)) ap /\ 0 < m /\ m = Rabs v * 1e-6.
 Proof.
   intros Hpp Hv. destruct s as [sgn idl pm cr pp pw bw th swp iwp df]. cbn [s_pp] in Hpp. subst pp.
-  cbv zeta. unfold config_poling. proj_simpl. cbn [pp_assign_period pp_to_config si_of].
+  cbv zeta. unfold config_poling. proj_simpl. cbn [pp_with_period si_of]. unfold pp_new.
   set (cs := compute_sign sgn pm cr).
   assert (Hpos : 0 < Rabs (v * 1e-6)) by (apply Rabs_pos_lt; lra).
   assert (Habs : Rabs (v * 1e-6) = Rabs v * 1e-6) by (rewrite Rabs_mult, (Rabs_right 1e-6); lra).
-  assert (Hq : Rabs (sign_mul cs (Rabs (v * 1e-6))) = Rabs v * 1e-6).
-  { destruct cs; cbn [sign_mul].
-    - rewrite Rmult_1_r, Rabs_Rabsolu. exact Habs.
-    - replace (Rabs (v * 1e-6) * -1) with (- Rabs (v * 1e-6)) by ring. rewrite Rabs_Ropp, Rabs_Rabsolu. exact Habs. }
+  assert (Hst : (if Rgt_dec (sign_mul cs (Rabs (v * 1e-6))) (0 * 1) then sign_mul cs (Rabs (v * 1e-6)) else - sign_mul cs (Rabs (v * 1e-6))) = Rabs v * 1e-6
+                /\ (if Rgt_dec (sign_mul cs (Rabs (v * 1e-6))) (0 * 1) then POSITIVE else NEGATIVE) = cs).
+  { destruct cs; cbn [sign_mul]; destruct (Rgt_dec _ (0 * 1)) as [H | H]; split; try reflexivity; try lra; exfalso; lra. }
+  destruct Hst as [Hm Hs]. rewrite Hm, Hs. cbn [pp_to_config].
   split.
-  - f_equal. f_equal. unfold round4. rewrite Hq. do 3 f_equal. lra.
-  - exists (Rabs v * 1e-6). split; [|split; [lra | reflexivity]].
-    rewrite Hq. f_equal.
-    destruct cs; cbn [sign_mul];
-      destruct (Rgt_dec _ (0 * 1)) as [H | H]; try reflexivity; exfalso; lra.
+  - f_equal. f_equal. unfold round4. do 3 f_equal. lra.
+  - exists (Rabs v * 1e-6). split; [reflexivity | split; [lra | reflexivity]].
 Qed.
 
-(* on an UNPOLED description the poling setter does nothing at all *)
-Lemma poling_off_noop x s : s_pp s = Off -> ideal SPolingPeriod x s = s.
-Proof. destruct s as [sgn idl pm cr pp pw bw th swp iwp df]. cbn [s_pp]. intros ->. reflexivity. Qed.
+(* on an unpoled description the reference behaviour creates the poling, without apodization *)
+Lemma poling_value_unpoled s v :
+  s_pp s = Off -> v <> 0 ->
+  config_poling (ideal SPolingPeriod (si_of UUm v) s) = Some (round4 (Rabs v), CfgOff).
+Proof.
+  intros Hpp Hv. destruct s as [sgn idl pm cr pp pw bw th swp iwp df]. cbn [s_pp] in Hpp. subst pp.
+  unfold config_poling. proj_simpl. cbn [pp_with_period si_of]. unfold pp_new.
+  set (cs := compute_sign sgn pm cr).
+  assert (Hpos : 0 < Rabs (v * 1e-6)) by (apply Rabs_pos_lt; lra).
+  assert (Habs : Rabs (v * 1e-6) = Rabs v * 1e-6) by (rewrite Rabs_mult, (Rabs_right 1e-6); lra).
+  cbn [pp_to_config apod_to_config]. f_equal. f_equal. unfold round4. do 3 f_equal.
+  destruct cs; cbn [sign_mul]; destruct (Rgt_dec _ (0 * 1)) as [H | H]; lra.
+Qed.
 End Frame.
